@@ -564,7 +564,7 @@ def gen_cases(rng, tier):
     k = 0
     for cfg in sorted(set(CONFIGS)):
         for s in smalls:
-            for mode in (0, 1):
+            for mode in (0, 1) if big else (k % 2,):
                 if big:
                     poss = STR_POS
                 else:
@@ -573,23 +573,23 @@ def gen_cases(rng, tier):
                 for pos in poss:
                     cases.append(_case(cfg, mode, pos, (k + mode) % 3, [_v_str(s)], "small-str"))
     # --- random strings in every position
-    for _ in range(6000 if big else 700):
+    for _ in range(6000 if big else 450):
         cfg = rng.choice(CONFIGS)
         cases.append(_case(cfg, rng.randint(0, 1), rng.choice(STR_POS), rng.randint(0, 2), [_v_str(_rstr(rng))], "rand-str"))
     # --- IN lists
-    for _ in range(3000 if big else 300):
+    for _ in range(3000 if big else 200):
         cfg = rng.choice(CONFIGS)
         vals = [_v_str(_rstr(rng, 5)) for _ in range(rng.randint(1, 4))]
         cases.append(_case(cfg, rng.randint(0, 1), 2, rng.randint(0, 1), vals, "in-list"))
-    for _ in range(1500 if big else 160):
+    for _ in range(1500 if big else 120):
         cfg = rng.choice(CONFIGS)
         vals = [_v_str(rng.choice(["a", "A b", "x,y", "q'", "%", "\\", "a, b", ", ", "p, q, r", "'', '"]) if rng.random() < 0.6 else _rstr(rng, 3)) for _ in range(rng.randint(1, 3))]
         cases.append(_case(cfg, rng.randint(0, 1), 9, 0, vals, "in-list-bind-expression"))
     # --- integers (Integer type), booleans, None
     for z in INTS:
-        for cfg in rng.sample(sorted(set(CONFIGS)), 5 if not big else 12):
+        for cfg in rng.sample(sorted(set(CONFIGS)), 3 if not big else 12):
             for pos in (0, 1, 3, 8, 10):
-                if pos == 8 and (cfg[0] == 3 or z < 0 or z > 2**31):
+                if pos == 8 and (cfg[0] == 3 or z < 0 or z > 2**31 or (cfg[0] == 0 and cfg[2] in (4, 5))):
                     continue
                 cases.append(_case(cfg, rng.randint(0, 1), pos, 3, [[2, z]], "int"))
     for _ in range(400 if big else 60):
@@ -613,8 +613,15 @@ def gen_cases(rng, tier):
     for kd, text in [(1, "-1.5"), (2, "-2.50"), (0, "-3"), (1, "1.5"), (0, "+4")]:
         for cfg in [(0, 2, 6), (1, 2, 6), (2, 2, 6)]:
             cases.append(_case(cfg, 0, 10, 6 if kd == 1 else 5, [[4, [kd, S(text)]]], "numeric-neg"))
+    # --- numeric paramstyle: executed on a SQLite engine with paramstyle="numeric" (oracle only)
+    for v in ["%(x_1)s", "%(x_2)s", "%(zq)s", "plain", "%(x_1)", "100%", "a%(x_3)sb"]:
+        for mode in (0, 1):
+            cases.append({"in": [0, [0, 2, 4], mode, 11, 0, [_v_str(v)]], "kind": "numeric-paramstyle-exec", "model": False})
+    for _ in range(300 if big else 40):
+        v = "".join(rng.choice(["%(", "x", ")s", "%", "(", ")", "s", "zq", "_1", "'", " "]) for _ in range(rng.randint(1, 6)))
+        cases.append(_case(rng.choice([(0, 2, 4), (1, 1, 5), (1, 2, 5), (0, 2, 5)]), rng.randint(0, 1), rng.choice(STR_POS + [2]), 0, [_v_str(v)], "numeric-paramstyle"))
     # --- dates and times
-    for _ in range(2500 if big else 260):
+    for _ in range(2500 if big else 200):
         cfg = rng.choice(CONFIGS)
         which = rng.randint(0, 2)
         if which == 0:
@@ -628,7 +635,7 @@ def gen_cases(rng, tier):
         cases.append(_case(cfg, rng.randint(0, 1), pos, ty, vals, "temporal"))
     # --- spec side: SQLite lexer on raw text
     RAW = ["'", "'", "''", "a", "\\", "%", " ", "\n", "N", "é", ":", "?", "'a'", "b"]
-    for _ in range(5000 if big else 500):
+    for _ in range(5000 if big else 350):
         r = "".join(rng.choice(RAW) for _ in range(rng.randint(0, 7)))
         if rng.random() < 0.5:
             r = "'" + r + "'"
@@ -637,18 +644,18 @@ def gen_cases(rng, tier):
     DA = list("0123456789") + ["+", "-", ".", "e", "E", "_", " ", "\n", "n", "a", "N", "i", "f", "I", "s", "S", "t", "y", "inf", "nan", "NaN", "Infinity", "snan", "٠", " ", " ", "１", "x", ",", "'", "\x1c", "\x85", "\U0001d7ce"]
     for t in NUM_STR + NUM_DEC + NUM_FLOAT:
         cases.append({"in": [2, S(t)], "kind": "decimal-accepts"})
-    for _ in range(6000 if big else 600):
+    for _ in range(6000 if big else 400):
         t = "".join(rng.choice(DA) for _ in range(rng.randint(0, 6)))
         cases.append({"in": [2, S(t)], "kind": "decimal-accepts"})
     # --- spec side: the oracle's Python lexers against the Coq lexers
     LX = ["'", "'", "''", "\\", "\\\\", "\\'", "a", "%", "N", "n", "0", "7", "x", "u", "Z", "_", " ", "é", "b", "t"]
-    for _ in range(4000 if big else 450):
+    for _ in range(4000 if big else 300):
         r = "".join(rng.choice(LX) for _ in range(rng.randint(0, 7)))
         if rng.random() < 0.7:
             r = rng.choice(["'", "'", "N'"]) + r
         cases.append({"in": [3, rng.randint(0, 2), rng.randint(0, 1), S(r)], "kind": "pylex-str"})
     NX = list("0123456789") + ["+", "-", ".", "e", "E", "_", " ", "a", ")", ",", "$", "é"]
-    for _ in range(3000 if big else 350):
+    for _ in range(3000 if big else 250):
         r = "".join(rng.choice(NX) for _ in range(rng.randint(0, 7)))
         cases.append({"in": [4, S(r)], "kind": "pylex-num"})
     for _ in range(1000 if big else 120):
@@ -700,10 +707,25 @@ def _setup():
         "t", md, sa.Column("id", sa.Integer, primary_key=True), sa.Column("s", sa.String), sa.Column("n", sa.Integer),
         sa.Column("f", sa.Float),
     )
+    # no primary key: INSERT renders no RETURNING / OUT parameter on any dialect
+    w = sa.Table("w", md, sa.Column("s", sa.String), sa.Column("n", sa.Integer), sa.Column("f", sa.Float))
     eng = sa.create_engine("sqlite://")
     md.create_all(eng)
-    _ST.update(sa=sa, mods=[sqlite, postgresql, mysql, mssql, oracle], Low=Low, t=t, eng=eng, dialects={}, conn=eng.connect())
+    _ST.update(
+        sa=sa, mods=[sqlite, postgresql, mysql, mssql, oracle], Low=Low, t=t, w=w, eng=eng, md=md, dialects={},
+        conn=eng.connect(),
+    )
     return _ST
+
+
+def _numeric_conn():
+    """a second SQLite engine using the 'numeric' paramstyle (:1, :2 ...)"""
+    st = _setup()
+    if "nconn" not in st:
+        e2 = st["sa"].create_engine("sqlite://", paramstyle="numeric")
+        st["md"].create_all(e2)
+        st["nconn"] = e2.connect()
+    return st["nconn"]
 
 
 def _dialect(cfg):
@@ -760,10 +782,10 @@ def _column(ty):
     return t.c.n if ty in (3, 4) else t.c.f if ty in (5, 6) else t.c.s
 
 
-def _stmt(pos, ty, vals, le, table=None):
+def _stmt(pos, ty, vals, le):
     st = _setup()
     sa = st["sa"]
-    t = table if table is not None else st["t"]
+    t = st["w"] if pos in (3, 4) else st["t"]
     col = t.c.n if ty in (3, 4) else t.c.f if ty in (5, 6) else t.c.s
     pv = [_pyvalue(v) for v in vals]
     typ = _satype(ty)
@@ -801,12 +823,19 @@ def _stmt(pos, ty, vals, le, table=None):
         ).order_by(t.c.id)
     if pos == 10:
         return sa.select((-bp()).label("x"))
+    if pos == 11:
+        # a second, expanding, parameter named x: its expansion keys are x_1, x_2
+        return sa.select(t.c.id).where(col == bp()).where(t.c.id.in_(sa.bindparam("x", [1, 2, 3], expanding=True))).order_by(t.c.id)
     raise ValueError(pos)
 
 
 PLACEHOLDER = re.compile(
-    r"(?:\?|%\(zq\)s|%s|:zq|:1|\$1|__\[POSTCOMPILE_zq[^\]]*\])(?:::[A-Z][A-Z ]*(?:\(\d+(?:, *\d+)?\))?)?"
+    r"(?:\?|%\(zq\)s|%s|:zq|:1|\$1|__\[POSTCOMPILE_zq[^\]]*\])"
+    r"(?:::(?:VARCHAR|INTEGER|BIGINT|SMALLINT|NUMERIC|FLOAT|DOUBLE PRECISION|BOOLEAN|DATE|TIME WITHOUT TIME ZONE|"
+    r"TIMESTAMP WITHOUT TIME ZONE)(?:\(\d+(?:, *\d+)?\))?)?"
 )
+PYFORMAT = re.compile(r"%\(([^)]+?)\)s")
+DEFAULT_PS = [0, 2, 1, 3, 3]  # default paramstyle of the five base dialects (checked by translate())
 _CACHE = {}
 
 
@@ -823,7 +852,7 @@ def _render(inp):
     bound = str(_stmt(pos, ty, vals, False).compile(dialect=dia))
     ms = list(PLACEHOLDER.finditer(bound))
     other_zero = False
-    if pos == 8 and cfg[0] == 0 and len(ms) == 2:
+    if pos == 8 and cfg[0] == 0 and ms:
         # SQLite always renders  LIMIT <our bind> OFFSET <literal(0)>
         other_zero = True
         ms = ms[:1]
@@ -838,11 +867,16 @@ def _render(inp):
         if mode == 0:
             full = str(_stmt(pos, ty, vals, False).compile(dialect=dia, compile_kwargs={"literal_binds": True}))
             if other_zero:
-                post = PLACEHOLDER.sub("0", post)
+                post = re.sub(r" OFFSET \S+$", " OFFSET 0", post)
         else:
             full = str(_stmt(pos, ty, vals, True).compile(dialect=dia, compile_kwargs={"render_postcompile": True}))
     except exc.CompileError:
         r = {"code": 1}
+        _CACHE[key] = r
+        return r
+    except KeyError as e:
+        # SQLCompiler._process_numeric: param_pos[m.group(1)] for a %(name)s found in the text
+        r = {"code": 3, "key": str(e)}
         _CACHE[key] = r
         return r
     if full.startswith(pre) and full.endswith(post) and len(full) >= len(pre) + len(post):
@@ -870,6 +904,8 @@ def impl(c):
     inp = c["in"]
     fam = inp[0]
     if fam == 0:
+        if inp[3] == 11:
+            return [9]  # executed only (oracle); not compared with the model
         r = _render(inp)
         if r["code"] == 0:
             return [0, S(r["lit"])]
@@ -911,12 +947,12 @@ def _norm(x):
     return x
 
 
-def _sqlite_exec(inp):
+def _sqlite_exec(inp, conn=None):
     """bound rows vs literal rows on SQLite; returns None (same) or a description"""
     st = _setup()
     sa = st["sa"]
     _, cfg, mode, pos, ty, vals = inp
-    conn = st["conn"]
+    conn = conn or st["conn"]
     t = st["t"]
     col = _column(ty)
     pv = [_pyvalue(v) for v in vals]
@@ -924,6 +960,7 @@ def _sqlite_exec(inp):
 
     def reset():
         conn.exec_driver_sql("DELETE FROM t")
+        conn.exec_driver_sql("DELETE FROM w")
         kw = {"type_": typ} if typ is not None else {}
         try:
             conn.execute(t.insert().values({"id": 1, col.name: sa.bindparam("a", pv[0], **kw)}))
@@ -934,6 +971,8 @@ def _sqlite_exec(inp):
         conn.execute(t.insert(), [{"id": 2, **extra}, {"id": 3, "s": None, "n": None, "f": None}])
         if pos == 8:
             conn.execute(t.insert(), [{"id": 10 + i, **extra} for i in range(12)])
+        if pos == 4:
+            conn.execute(st["w"].insert(), [extra, {"s": None, "n": None, "f": None}])
 
     def run(kind):
         reset()
@@ -947,7 +986,7 @@ def _sqlite_exec(inp):
         if res.returns_rows:
             out = [tuple(_norm(x) for x in r) for r in res.cursor.fetchall()]
         else:
-            out = [tuple(_norm(x) for x in r) for r in conn.exec_driver_sql("SELECT id, s, n, f FROM t ORDER BY id").fetchall()]
+            out = [tuple(_norm(x) for x in r) for r in conn.exec_driver_sql("SELECT s, n, f FROM w").fetchall()]
         return out
 
     try:
@@ -985,8 +1024,12 @@ def oracle(c, obs):
     if inp[0] != 0:
         return None
     _, cfg, mode, pos, ty, vals = inp
-    r = _render(inp)
     what = "literal_binds" if mode == 0 else "literal_execute"
+    if pos == 11:
+        return _sqlite_exec(inp, _numeric_conn() if cfg[2] == 4 else None)
+    r = _render(inp)
+    if r["code"] == 3:
+        return "%s: internal KeyError %s while compiling a supported value (the %%(name)s pass of the numeric paramstyles ran over the literal)" % (what, r["key"])
     if r["code"] == 1:
         if all(v[0] == 4 and v[1][0] == 0 for v in vals):
             return None  # a str the Numeric type refuses: not a renderable value
@@ -1081,9 +1124,9 @@ def oracle(c, obs):
                 return "%s: the bind expression around element %d is not closed after the literal: %r" % (what, i, rest[:60])
             rest = rest[1:]
         if i + 1 < n:
-            if not rest.startswith(", "):
-                return "%s: IN list element %d is not followed by ', ': %r" % (what, i, rest[:40])
-            rest = rest[2:]
+            if not rest.lstrip(SQLWS).startswith(","):
+                return "%s: IN list element %d is not followed by a comma: %r" % (what, i, rest[:40])
+            rest = rest.lstrip(SQLWS)[1:].lstrip(SQLWS)
         text = rest
     if text != dpost and not (kinds == {4} and text.lstrip(SQLWS) == dpost.lstrip(SQLWS)):
         return "%s: the remainder of the statement changed: %r instead of %r" % (what, text[:80], dpost[:80])
@@ -1096,6 +1139,16 @@ def oracle(c, obs):
     return None
 
 
+def _decimal_ok(text):
+    import decimal
+
+    try:
+        decimal.Decimal(text)
+        return True
+    except (decimal.InvalidOperation, ValueError):
+        return False
+
+
 def match_finding(c, what):
     inp = c["in"]
     if inp[0] != 0:
@@ -1106,10 +1159,17 @@ def match_finding(c, what):
             return "C05-negated-negative-literal-comment"
     if pos == 9 and mode == 1 and any(v[0] == 1 and ", " in unS(v[1]) for v in vals):
         return "C05-literal-execute-bind-expression-split"
+    ps = cfg[2] if cfg[2] != 6 else DEFAULT_PS[cfg[0]]
+    strs = [unS(v[1]) for v in vals if v[0] == 1]
+    if strs and PYFORMAT.search("', '".join(strs)):
+        if ps in (4, 5):
+            return "C05-numeric-paramstyle-pyformat-in-literal"
+        if ps in (0, 1) and mode == 0:
+            return "C05-positional-pass-rewrites-literal"
     if ty in (5, 6) and any(v[0] == 4 and not py_sql_numeric(unS(v[1][1])) for v in vals):
         bad = [v for v in vals if v[0] == 4 and not py_sql_numeric(unS(v[1][1]))]
-        if all(v[1][0] == 1 for v in bad):
+        if all(v[1][0] == 1 and unS(v[1][1]) in ("inf", "-inf", "nan") for v in bad):
             return "C05-float-inf-nan-bare-word"
-        if all(v[1][0] in (0, 2) for v in bad):
+        if all(v[1][0] in (0, 2) and _decimal_ok(unS(v[1][1])) for v in bad):
             return "C05-numeric-text-not-a-literal"
     return None
